@@ -5,6 +5,7 @@ package sched
 import (
 	"runtime"
 	"time"
+	"unsafe"
 )
 
 // Edge-free hand-off for race-detector builds. A channel or mutex between
@@ -57,15 +58,24 @@ func (s *Sim) lookup(g uint64) *Task {
 func (s *Sim) initTask(t *Task) {}
 
 func backoff(i int) {
-	if i < 200 {
+	if i < 5000 {
 		runtime.Gosched()
 		return
 	}
 	time.Sleep(20 * time.Microsecond)
 }
 
+// doneSync carries the one deliberate edge: a finished (or crashed) task
+// happens-before the engine that collected it, so the engine may read what the
+// task left behind. (runtime.Race* exist only in -race builds, which is the
+// only way this file is built.)
+var doneSync int64
+
 func (s *Sim) post(ev event) {
 	t := ev.t
+	if ev.kind == evDone || ev.kind == evCrash {
+		runtime.RaceReleaseMerge(unsafe.Pointer(&doneSync))
+	}
 	t.evq[t.postSeq%8] = ev.kind
 	t.postSeq++
 }
@@ -91,6 +101,9 @@ func (s *Sim) next(d time.Duration) (event, bool) {
 			if t != nil && t.seenSeq != t.postSeq {
 				k := t.evq[t.seenSeq%8]
 				t.seenSeq++
+				if k == evDone || k == evCrash {
+					runtime.RaceAcquire(unsafe.Pointer(&doneSync))
+				}
 				return event{k, t}, true
 			}
 		}
@@ -100,3 +113,8 @@ func (s *Sim) next(d time.Duration) (event, bool) {
 		}
 	}
 }
+
+// joined: a task that waited for the others to finish is ordered after the
+// finished ones (a join, as any program must do to know a goroutine is done);
+// tasks that are merely parked released nothing.
+func (s *Sim) joined() { runtime.RaceAcquire(unsafe.Pointer(&doneSync)) }
